@@ -379,6 +379,19 @@ func (t *transpiler) charClass(node *ast.CharClassNode) {
 
 		internalNodes = append(internalNodes, element)
 	}
+	if len(nodesToSplit) > 0 && len(internalNodes) == 0 {
+		// only split elements eg. `[\W]`: there is no inner class, `[]` would swallow the alternatives
+		t.Mode = topLevelMode
+		t.Buffer.WriteString(`(?:`)
+		for i, element := range nodesToSplit {
+			if i > 0 {
+				t.Buffer.WriteRune('|')
+			}
+			t.charClassElement(element)
+		}
+		t.Buffer.WriteRune(')')
+		return
+	}
 	if len(nodesToSplit) > 0 {
 		t.Buffer.WriteString(`(?:[`)
 	} else {
